@@ -1,29 +1,35 @@
 import TinsModel.Wire.Transport.Udp
+import TinsModel.Wire.Transport.Tcp
 /-
-  Family interface of `Transport` (TCP, UDP, ICMP, ICMPv6, ICMP extensions).  Modelled so far: UDP.
+  Family interface of `Transport`: UDP, TCP (+options).
 -/
 namespace Tins.Wire.Transport
 
 inductive Obj
   | udp (u : Udp)
+  | tcp (t : Tcp)
 deriving Repr
 
-def classes : List String := ["UDP"]
+def classes : List String := ["UDP", "TCP"]
 
 def parse (cls : String) (b : Bytes) : Out (Obj × Inner) :=
   if cls == "UDP" then (Udp.parse b) >>= fun (u, i) => pure (.udp u, i)
+  else if cls == "TCP" then (Tcp.parse b) >>= fun (t, i) => pure (.tcp t, i)
   else .throw .stdOther
 
 def info : Obj → String × Fields
   | .udp u => ("UDP", u.fields)
+  | .tcp t => ("TCP", t.fields)
 
 def hdr : Obj → Nat
   | .udp _ => 8
+  | .tcp t => t.hdr
 
 def trl (_o : Obj) (_innerSize : Nat) : Nat := 0
 
 def write (cx : Ctx) : Obj → Bytes → Out Bytes
   | .udp u, region => u.write cx region
+  | .tcp t, region => t.write cx region
 
 def mk (cls : String) (args : List String) : Out Obj :=
   match cls, args with
@@ -31,9 +37,14 @@ def mk (cls : String) (args : List String) : Out Obj :=
   | "UDP", [d, s] => match d.toNat?, s.toNat? with
     | some d, some s => .ok (.udp (Udp.create d s))
     | _, _ => .throw .stdOther
+  | "TCP", [] => .ok (.tcp (Tcp.create 0 0))
+  | "TCP", [d, s] => match d.toNat?, s.toNat? with
+    | some d, some s => .ok (.tcp (Tcp.create d s))
+    | _, _ => .throw .stdOther
   | _, _ => .throw .stdOther
 
 def apply : Obj → List String → Out Obj
   | .udp u, op => (u.apply op) >>= fun x => pure (.udp x)
+  | .tcp t, op => (t.apply op) >>= fun x => pure (.tcp x)
 
 end Tins.Wire.Transport
